@@ -82,7 +82,6 @@ func configs() []*Config {
 		{Name: "vp8+opus-early-audio", Codec: "vp8", V: []VF{k(0, 1, 1), d(1), d(1)}, A: []int{1, 1, 1, 1}, AOff: -25, VTS0: tsWrapV},
 		{Name: "vp8-dims", Codec: "vp8", V: []VF{k(0, 1), d(1), k(1, 1), d(1), k(1, 1), d(1)}},
 		{Name: "vp8-latekey", Codec: "vp8", V: []VF{d(1), d(1, 1), k(0, 1, 1), d(1)}},
-		{Name: "vp8-pre509", Codec: "vp8", PreN: 255, PreF0: 3, V: []VF{d(1, 1, 1), d(1, 1), d(1)}},
 		{Name: "vp8-pre510", Codec: "vp8", PreN: 256, V: []VF{d(1, 1), d(1, 1, 1), d(1)}},
 		{Name: "vp8-pre511", Codec: "vp8", PreN: 256, PreF0: 3, V: []VF{d(1, 1, 1), d(1, 1), d(1)}},
 		{Name: "vp8-pre512", Codec: "vp8", PreN: 257, V: []VF{d(1, 1), d(1, 1, 1), d(1)}},
@@ -90,10 +89,13 @@ func configs() []*Config {
 		{Name: "vp9", Codec: "vp9", V: []VF{k(0, 1, 2), d(1), d(1200, 1)}},
 		{Name: "h264", Codec: "h264", V: []VF{k(0, 2, 2), d(2), d(2, 1200, 2)}},
 	}
+	q = append(q, sizeConfigs()...)
 	if core.Quick() {
 		return q
 	}
 	t := []*Config{
+		{Name: "vp8-pre509", Codec: "vp8", PreN: 255, PreF0: 3, V: []VF{d(1, 1, 1), d(1, 1), d(1)}},
+		{Name: "vp8-pre508", Codec: "vp8", PreN: 255, V: []VF{d(2, 1200), d(1, 1, 1), d(1)}, VSeq0: 65000, VTS0: tsWrapV},
 		{Name: "vp8-6f", Codec: "vp8", V: []VF{k(0, 1, 2, 1200), d(1), d(2, 1), d(1200), k(0, 1, 1), d(2)}, VTS0: tsWrapV, VSeq0: 65530},
 		{Name: "vp8-3x3", Codec: "vp8", V: []VF{k(0, 1, 1, 1), d(2, 2, 2), d(1200, 1, 2)}},
 		{Name: "vp8-seq0", Codec: "vp8", V: []VF{k(0, 1), d(1, 1), d(1), d(1, 1)}, VSeq0: 65535},
@@ -183,24 +185,64 @@ type plan struct {
 
 func planFor(st *stream, witness bool) plan {
 	n := len(st.free)
-	if witness {
+	pre := st.cfg.PreN > 0 || st.cfg.PreA > 0
+	switch {
+	case witness:
 		return plan{permD: 3, dupBaseD: 1, gapBaseD: 1, gapMax: 2, srBaseD: 1, srPairs: true}
+	case strings.HasPrefix(st.cfg.Name, "sz-"):
+		return plan{permD: 2, dupBaseD: 0, gapBaseD: 0, gapMax: 2, srBaseD: 0, srPairs: false}
+	case core.Quick() && pre:
+		return plan{permD: 2, gapMax: 2, srPairs: true}
+	case core.Quick():
+		return plan{permD: 2, dupBaseD: 1, gapBaseD: 1, gapMax: 2, srBaseD: 1, srPairs: true}
+	case pre:
+		return plan{permD: 3, dupBaseD: 2, gapBaseD: 2, gapMax: 2, srBaseD: 1, srPairs: true}
+	case n <= 8:
+		return plan{permD: 3, dupBaseD: 2, gapBaseD: 2, gapMax: 2, srBaseD: 2, srPairs: true}
+	case n <= 10:
+		return plan{permD: 3, dupBaseD: 2, dupSpan: 4, gapBaseD: 2, gapMax: 2, srBaseD: 1, srPairs: true}
+	default:
+		return plan{permD: 3, dupBaseD: 1, dupSpan: 4, gapBaseD: 1, gapMax: 2, srBaseD: 1, srPairs: true}
 	}
-	if core.Quick() {
-		p := plan{permD: 2, dupBaseD: 0, gapBaseD: 0, gapMax: 2, srBaseD: 0, srPairs: true}
-		if n <= 7 {
-			p.dupBaseD, p.gapBaseD, p.srBaseD = 1, 1, 1
+}
+
+// sizeConfigs: the full product of payload sizes {1,2,1200} over every packet
+// of a two-frame stream, times timestamp and seqno starts.
+func sizeConfigs() []*Config {
+	var l []*Config
+	sizes := []int{1, 2, 1200}
+	codecs := []string{"vp8"}
+	if !core.Quick() {
+		codecs = []string{"vp8", "vp9", "h264"}
+	}
+	for _, codec := range codecs {
+		for _, a := range sizes {
+			for _, b := range sizes {
+				for _, c := range sizes {
+					for _, e := range sizes {
+						for wi, w := range [][2]uint32{{0, 0}, {uint32(tsWrapV + vTick), 65534}} {
+							sz := func(x int) int {
+								if codec == "h264" && x == 1 {
+									return 3 // a NAL unit packet of 1 byte is not a partition head for pion
+								}
+								return x
+							}
+							l = append(l, &Config{Name: fmt.Sprintf("sz-%s-%d-%d-%d-%d-%d", codec, a, b, c, e, wi), Codec: codec,
+								V: []VF{k(0, sz(a), sz(b)), d(sz(c), sz(e))}, VTS0: w[0], VSeq0: uint16(w[1])})
+						}
+					}
+				}
+			}
 		}
-		return p
 	}
-	p := plan{permD: 3, dupBaseD: 2, dupSpan: 4, gapBaseD: 1, gapMax: 2, srBaseD: 1, srPairs: true}
-	if n <= 8 {
-		p.gapBaseD = 2
+	for _, a := range sizes {
+		for _, b := range sizes {
+			for _, c := range sizes {
+				l = append(l, &Config{Name: fmt.Sprintf("sz-opus-%d-%d-%d", a, b, c), A: []int{a, b, c}, ATS0: uint32(tsWrapA + aTick), ASeq0: 65534})
+			}
+		}
 	}
-	if n >= 10 {
-		p.dupBaseD = 1
-	}
-	return p
+	return l
 }
 
 type emitFn func(fam string, h *History) bool
@@ -433,12 +475,31 @@ func subName(c *Config, fam string) string {
 	if c.PreN > 0 || c.PreA > 0 {
 		return "preroll"
 	}
+	if strings.HasPrefix(c.Name, "sz-") {
+		return "sizes"
+	}
 	return fam
 }
 
-func boundText() string {
-	return fmt.Sprintf("streams of 3-6 frames x 1-3 packets (payload 1/2/1200, ts start 0 / 2^32-eps, seq start 0 / 6553x, VP8/VP9/H264/opus, audio+video, keyframe dimension change, ts jump > 2^31); every permutation with displacement <= %d; every single duplication; every 1 or 2 packets not written (cached / lost); a sender report at every position (pairs for two tracks); Close and departure",
-		core.Pick(2, 3))
+func boundText(sub string) string {
+	d := core.Pick(2, 3)
+	base := core.Pick("in-order and displacement-1 bases", "bases of displacement <= 2 (1 for streams of more than 10 packets)")
+	common := fmt.Sprintf("%d stream configurations (3-6 frames x 1-3 packets, payloads 1/2/1200, ts start 0 / 2^32-eps, seq start 0 / 6553x, VP8/VP9/H264/opus, audio+video, dimension change, ts jump > 2^31); Close and departure; ", len(configs()))
+	switch sub {
+	case "perm":
+		return common + fmt.Sprintf("every permutation with displacement <= %d", d)
+	case "dup":
+		return common + "every single duplication (original in slot i, copy before slot j>i) over " + base
+	case "gap":
+		return common + "every choice of 1 or 2 packets not written to the recorder, each in the cache or lost, over " + base
+	case "sr":
+		return common + "a sender report at every position, every pair of positions (both orders of the two tracks), over " + base
+	case "preroll":
+		return "all four families after a pre-roll macro that leaves the video builder's ring at 508..512 of 513 (audio: 58..61 of 65) with a non-empty buffer"
+	case "sizes":
+		return "full product of payload sizes {1,2,1200}^4 (opus ^3) x ts/seq start (0 / wrapping inside the stream) on a 2-frame stream; permutations (displacement <= 2), duplications, 1-2 gaps (cached/lost), sender reports"
+	}
+	return ""
 }
 
 func main() {
@@ -503,6 +564,22 @@ func main() {
 	// shard
 	r := newRunner(e, res)
 	idx := 0
+	if os.Getenv("C20_COUNT") != "" {
+		// planning aid: count the histories per configuration and family
+		tot := map[string]int{}
+		for _, c := range configs() {
+			st, err := buildStream(c)
+			if err != nil {
+				fmt.Println(c.Name, err)
+				continue
+			}
+			cnt := map[string]int{}
+			enumerate(st, planFor(st, false), func(fam string, h *History) bool { cnt[fam]++; tot[subName(c, fam)]++; return true })
+			fmt.Printf("%-24s n=%-3d %v\n", c.Name, len(st.free), cnt)
+		}
+		fmt.Println("total", tot)
+		os.Exit(0)
+	}
 	for _, c := range configs() {
 		st, err := buildStream(c)
 		if err != nil {
@@ -527,14 +604,14 @@ func main() {
 				s.Exhaustive = false
 			}
 			// subs not started yet are incomplete too
-			for _, n := range []string{"perm", "dup", "gap", "sr", "preroll"} {
+			for _, n := range []string{"perm", "dup", "gap", "sr", "preroll", "sizes"} {
 				r.sub(n).Exhaustive = false
 			}
 			break
 		}
 	}
 	for _, s := range r.subs {
-		s.Bound = boundText()
+		s.Bound = boundText(s.Name)
 	}
 	r.flush()
 	e.close()
